@@ -118,18 +118,19 @@ func vhEncryptedElZ(p string, inner *etree.Element, compressed bool) *etree.Elem
 
 // vhScenario: what the attacker / IdP sends.
 type vhScenario struct {
-	root     *etree.Element
-	rootSig  int
-	rootKind int // 0 samlp:Response, 1 samlp:LogoutResponse, 2 samlp:LogoutRequest, 3 saml:EncryptedAssertion root
+	root                                                       *etree.Element
+	rootSig                                                    int
+	rootKind                                                   int // 0 samlp:Response, 1 samlp:LogoutResponse, 2 samlp:LogoutRequest, 3 saml:EncryptedAssertion root
 	ID, InResponseTo, Destination, Version, Issuer, StatusCode string
-	hasIssuer bool
+	hasIssuer                                                  bool
+	issuerOptional                                             bool // the scenario may omit the (schema-optional) Response Issuer
 	// expected: the assertions that are legitimately verifiable, in document order as the library must return them
 	// (direct children of the root; decrypted ones take the place the library gives them)
-	direct []*vhA // direct-child plaintext assertions (document order)
-	enc    []*vhA // assertions carried inside direct-child EncryptedAssertion elements (document order)
-	encBad int    // encrypted children whose plaintext is not an assertion / does not parse
-	hidden []*vhA // assertions that are NOT direct children (wrapped / nested): must never be honoured
-	order  []*vhA // all honourable candidates in document order (plain and encrypted interleaved)
+	direct   []*vhA // direct-child plaintext assertions (document order)
+	enc      []*vhA // assertions carried inside direct-child EncryptedAssertion elements (document order)
+	encBad   int    // encrypted children whose plaintext is not an assertion / does not parse
+	hidden   []*vhA // assertions that are NOT direct children (wrapped / nested): must never be honoured
+	order    []*vhA // all honourable candidates in document order (plain and encrypted interleaved)
 	orderEnc []bool
 }
 
@@ -145,8 +146,13 @@ func vhResponseRoot(s *vhScenario, tag string) *etree.Element {
 	r.CreateAttr("vx-sig", vhSigNames[s.rootSig])
 	r.CreateAttr("vx-name", "root")
 	s.hasIssuer = true
-	s.Issuer = vString("resp.Issuer")
-	vhText2(r, "saml:Issuer", s.Issuer)
+	if s.issuerOptional && !vFlag("resp.Issuer.present") {
+		s.hasIssuer = false
+	}
+	if s.hasIssuer {
+		s.Issuer = vString("resp.Issuer")
+		vhText2(r, "saml:Issuer", s.Issuer)
+	}
 	if s.rootSig != vhSigNone {
 		holder := r
 		if vFlag("root.sig.nested") {
@@ -316,8 +322,10 @@ func vhSamePermutation(got []types.Assertion, exp []*vhA) bool {
 }
 
 // vhExpected: the assertions the library may return, in the order it must return them.
-//   root verified    : every direct-child assertion (plain or decrypted) of the verified root
-//   root not verified: exactly the individually verified direct children
+//
+//	root verified    : every direct-child assertion (plain or decrypted) of the verified root
+//	root not verified: exactly the individually verified direct children
+//
 // Plaintext assertions keep document order; a decrypted assertion takes the position the library's
 // replacement gives it — DESIGN C11(4) demands the original position.
 func vhExpected(s *vhScenario, rootVerified bool) []*vhA {
